@@ -79,6 +79,7 @@ func runC13(c *Ctx) {
 	k.r6()
 	k.r7()
 	c13R8(c, p)
+	c13R9(c, p)
 	if c.Tier == "thorough" {
 		if s := c.need("spsa"); s != nil {
 			if k2 := c13New(c, s); k2 != nil {
